@@ -479,4 +479,416 @@ theorem C15_counterexample : ¬ Statement_C15 (cfgOf 2000 none) := by
   revert this
   decide
 
+
+/-! ## 7. Item lock records: no lock left behind
+
+Model R-items (`Sop/Model/Retry.lean`, Part 3). `no_lock_left_behind`: for every tracker, every script of loop
+decisions and every interleaving with other transactions, no lock record under one of the transaction's LockIDs
+survives the end of Commit — provided no `lock` call returns early between its write and its verifying read and
+no refetch fails part-way (`Benign`); without that proviso the statement is false on the tree under test
+(`C15_items_counterexample_lock_early_return`, `C15_items_counterexample_failed_refetch`: findings C15-F4/F5).
+`identity_dropped_for_reads_leaks`: the theorem needs `keepLockIdentity` for READ items too. -/
+
+/-- no record under one of the transaction's own LockIDs -/
+def OwnFree (c : RCache) : Prop := ∀ j l a, c j = some (l, a) → l.own = false
+
+/-- every record under one of the transaction's LockIDs is known to its tracker, under that LockID, as owned -/
+def Known (c : RCache) (trk : List Trk) : Prop :=
+  ∀ j l a, c j = some (l, a) → l.own = true → ∃ t ∈ trk, t.item = j ∧ t.lid = l ∧ t.owner = true ∧ t.act ≠ .add
+
+theorem known_env (c : RCache) (trk : List Trk) (op : EnvOp) (h : Known c trk) : Known (envApply c op) trk := by
+  intro j l a hj hown
+  cases op with
+  | put i n act =>
+    simp only [envApply, RCache.put] at hj
+    split at hj
+    · simp at hj; rw [← hj.1] at hown; simp at hown
+    · exact h j l a hj hown
+  | del i =>
+    simp only [envApply, RCache.del] at hj
+    split at hj
+    · simp at hj
+    · exact h j l a hj hown
+
+theorem ownFree_env (c : RCache) (op : EnvOp) (h : OwnFree c) : OwnFree (envApply c op) := by
+  intro j l a hj
+  cases op with
+  | put i n act =>
+    simp only [envApply, RCache.put] at hj
+    split at hj
+    · simp at hj; rw [← hj.1]
+    · exact h j l a hj
+  | del i =>
+    simp only [envApply, RCache.del] at hj
+    split at hj
+    · simp at hj
+    · exact h j l a hj
+
+theorem unlock_known (c : RCache) (trk : List Trk) (h : Known c trk) : Known (unlockItems c trk) trk := by
+  intro j l a hj hown
+  simp only [unlockItems] at hj
+  split at hj
+  · simp at hj
+  · exact h j l a hj hown
+
+theorem unlock_ownFree (c : RCache) (trk : List Trk) (h : Known c trk) : OwnFree (unlockItems c trk) := by
+  intro j l a hj
+  simp only [unlockItems] at hj
+  split at hj
+  · simp at hj
+  · rename_i hany
+    cases ho : l.own with
+    | false => rfl
+    | true =>
+      obtain ⟨t, ht, h1, _, h3, h4⟩ := h j l a hj ho
+      exfalso; apply hany
+      rw [List.any_eq_true]
+      exact ⟨t, ht, by simp [h1, h3, h4]⟩
+
+theorem scanA_spec (c : RCache) : ∀ (trk toSet : List Trk), scanA c trk = some toSet →
+    (∀ t ∈ toSet, t ∈ trk ∧ t.act ≠ .add ∧ c t.item = none) ∧
+    ((trk.map (·.item)).Nodup → (toSet.map (·.item)).Nodup) := by
+  intro trk
+  induction trk with
+  | nil => intro toSet h; simp [scanA] at h; subst h; simp
+  | cons t ts ih =>
+    intro toSet h
+    have lift : ∀ r, scanA c ts = some r →
+        (∀ x ∈ r, x ∈ t :: ts ∧ x.act ≠ .add ∧ c x.item = none) ∧
+        (((t :: ts).map (·.item)).Nodup → (r.map (·.item)).Nodup) := by
+      intro r hr
+      obtain ⟨h1, h2⟩ := ih r hr
+      refine ⟨fun x hx => ⟨List.mem_cons_of_mem _ (h1 x hx).1, (h1 x hx).2⟩, fun hn => h2 ?_⟩
+      simp only [List.map_cons, List.nodup_cons] at hn; exact hn.2
+    unfold scanA at h
+    split at h
+    · exact lift toSet h
+    · rename_i hadd
+      split at h
+      · split at h
+        · exact lift toSet h
+        · split at h
+          · exact lift toSet h
+          · simp at h
+      · rename_i hnone
+        rw [Option.map_eq_some_iff] at h
+        obtain ⟨r, hr, rfl⟩ := h
+        obtain ⟨h1, h2⟩ := ih r hr
+        constructor
+        · intro x hx
+          rcases List.mem_cons.mp hx with rfl | hx
+          · exact ⟨List.mem_cons_self, hadd, hnone⟩
+          · exact ⟨List.mem_cons_of_mem _ (h1 x hx).1, (h1 x hx).2⟩
+        · intro hn
+          simp only [List.map_cons, List.nodup_cons] at hn ⊢
+          refine ⟨?_, h2 hn.2⟩
+          intro hmem
+          apply hn.1
+          rw [List.mem_map] at hmem ⊢
+          obtain ⟨x, hx, hxe⟩ := hmem
+          exact ⟨x, (h1 x hx).1, hxe⟩
+
+theorem writeRecs_other (j : Nat) : ∀ (ts : List Trk) (c : RCache), j ∉ ts.map (·.item) → writeRecs c ts j = c j := by
+  intro ts
+  induction ts with
+  | nil => intro c _; rfl
+  | cons t ts ih =>
+    intro c hj
+    simp only [List.map_cons, List.mem_cons, not_or] at hj
+    show writeRecs (c.put t.item (t.lid, t.act)) ts j = c j
+    rw [ih _ hj.2]; simp [RCache.put, hj.1]
+
+theorem writeRecs_mem : ∀ (ts : List Trk) (c : RCache), (ts.map (·.item)).Nodup → ∀ t ∈ ts,
+    writeRecs c ts t.item = some (t.lid, t.act) := by
+  intro ts
+  induction ts with
+  | nil => intro c _ t ht; simp at ht
+  | cons x xs ih =>
+    intro c hn t ht
+    simp only [List.map_cons, List.nodup_cons] at hn
+    show writeRecs (c.put x.item (x.lid, x.act)) xs t.item = _
+    rcases List.mem_cons.mp ht with rfl | ht
+    · rw [writeRecs_other _ _ _ hn.1]; simp [RCache.put]
+    · exact ih _ hn.2 t ht
+
+theorem writeRecs_cases : ∀ (ts : List Trk) (c : RCache) (j : Nat) (v : Lid × Act), writeRecs c ts j = some v →
+    c j = some v ∨ ∃ t ∈ ts, t.item = j ∧ v = (t.lid, t.act) := by
+  intro ts
+  induction ts with
+  | nil => intro c j v h; exact Or.inl h
+  | cons x xs ih =>
+    intro c j v h
+    have h' : writeRecs (c.put x.item (x.lid, x.act)) xs j = some v := h
+    rcases ih _ j v h' with h1 | ⟨t, ht, h2⟩
+    · simp only [RCache.put] at h1
+      split at h1
+      · rename_i hj; simp at h1; exact Or.inr ⟨x, List.mem_cons_self, hj.symm, h1.symm⟩
+      · exact Or.inl h1
+    · exact Or.inr ⟨t, List.mem_cons_of_mem _ ht, h2⟩
+
+theorem verifyC_all (c : RCache) : ∀ (sub : List Trk), (∀ t ∈ sub, c t.item = some (t.lid, t.act)) →
+    verifyC c sub = (true, sub.map (·.item)) := by
+  intro sub
+  induction sub with
+  | nil => intro _; rfl
+  | cons t ts ih =>
+    intro h
+    have ht := h t List.mem_cons_self
+    have := ih (fun x hx => h x (List.mem_cons_of_mem _ hx))
+    simp [verifyC, ht, this]
+
+theorem markOwners_items (m : List Nat) (trk : List Trk) : (markOwners m trk).map (·.item) = trk.map (·.item) := by
+  simp only [markOwners, List.map_map]
+  apply List.map_congr_left
+  intro t _; simp only [Function.comp]; split <;> rfl
+
+theorem markOwners_mem (m : List Nat) (trk : List Trk) (t : Trk) (ht : t ∈ trk) :
+    ∃ t' ∈ markOwners m trk, t'.item = t.item ∧ t'.lid = t.lid ∧ t'.act = t.act ∧
+      ((t.owner = true ∨ t.item ∈ m) → t'.owner = true) := by
+  refine ⟨if t.item ∈ m then { t with owner := true } else t, List.mem_map.mpr ⟨t, ht, rfl⟩, ?_⟩
+  split
+  · simp
+  · rename_i hm; simp [hm]
+
+theorem lockItems_good (c : RCache) (trk : List Trk) (hk : Known c trk) (hn : (trk.map (·.item)).Nodup) :
+    Known (lockItems c trk Window.none).2.1 (lockItems c trk Window.none).2.2 ∧
+    (lockItems c trk Window.none).2.2.map (·.item) = trk.map (·.item) := by
+  unfold lockItems
+  cases hs : scanA c trk with
+  | none => exact ⟨hk, rfl⟩
+  | some toSet =>
+    obtain ⟨h1, h2⟩ := scanA_spec c trk toSet hs
+    have hv : verifyC (writeRecs c toSet) toSet = (true, toSet.map (·.item)) :=
+      verifyC_all _ _ (fun t ht => writeRecs_mem toSet c (h2 hn) t ht)
+    have key : Known (writeRecs c toSet) (markOwners (toSet.map (·.item)) trk) := by
+      intro j l a hj hown
+      rcases writeRecs_cases toSet c j (l, a) hj with h | ⟨t, ht, hi, hv⟩
+      · obtain ⟨t, ht, e1, e2, e3, e4⟩ := hk j l a h hown
+        obtain ⟨t', ht', f1, f2, f3, f4⟩ := markOwners_mem (toSet.map (·.item)) trk t ht
+        exact ⟨t', ht', f1.trans e1, f2.trans e2, f4 (Or.inl e3), by rw [f3]; exact e4⟩
+      · obtain ⟨g1, g2, _⟩ := h1 t ht
+        obtain ⟨t', ht', f1, f2, f3, f4⟩ := markOwners_mem (toSet.map (·.item)) trk t g1
+        simp only [Prod.mk.injEq] at hv
+        exact ⟨t', ht', f1.trans hi, f2.trans hv.1.symm, f4 (Or.inr (List.mem_map.mpr ⟨t, ht, rfl⟩)), by rw [f3]; exact g2⟩
+    simp only [Window.none, List.foldl_nil, Bool.false_eq_true, if_false]
+    split
+    · rename_i he
+      have : toSet = [] := by simpa using he
+      subst this
+      exact ⟨hk, rfl⟩
+    · rw [hv]; exact ⟨key, markOwners_items _ _⟩
+
+
+
+theorem checkOne_fields (c : RCache) (t : Trk) :
+    (checkOne c t).1.item = t.item ∧ (checkOne c t).1.lid = t.lid ∧ (checkOne c t).1.act = t.act := by
+  unfold checkOne; split
+  · simp
+  · split
+    · simp
+    · split
+      · simp
+      · split <;> simp
+
+theorem checkItems_items (c : RCache) (trk : List Trk) : (checkItems c trk).1.map (·.item) = trk.map (·.item) := by
+  simp only [checkItems, List.map_map]
+  apply List.map_congr_left
+  intro t _; exact (checkOne_fields c t).1
+
+theorem checkItems_known (c : RCache) (trk : List Trk) (hk : Known c trk) : Known c (checkItems c trk).1 := by
+  intro j l a hj hown
+  obtain ⟨t, ht, e1, e2, e3, e4⟩ := hk j l a hj hown
+  refine ⟨(checkOne c t).1, List.mem_map.mpr ⟨t, ht, rfl⟩, (checkOne_fields c t).1.trans e1,
+    (checkOne_fields c t).2.1.trans e2, ?_, by rw [(checkOne_fields c t).2.2]; exact e4⟩
+  unfold checkOne
+  rw [if_neg e4, e1, hj]
+  simp [e2]
+
+theorem reReg_keepAll (n : Nat) (trk : List Trk) : (reReg keepAll n trk).1 = trk := by
+  induction trk generalizing n with
+  | nil => rfl
+  | cons t ts ih => simp [reReg, keepAll, ih]
+
+/-- The invariant of the item lock records of one transaction. -/
+structure Good (i : ISt) : Prop where
+  known : Known i.cache i.trk
+  nodup : (i.trk.map (·.item)).Nodup
+  unlogged : i.logged = false → OwnFree i.cache
+  ended : i.ended = true → OwnFree i.cache
+
+theorem rollbackEnd_good (i : ISt) (h : Good i) : Good (rollbackEnd i) := by
+  unfold rollbackEnd
+  cases hl : i.logged with
+  | true =>
+    exact ⟨unlock_known _ _ h.known, h.nodup, fun _ => unlock_ownFree _ _ h.known, fun _ => unlock_ownFree _ _ h.known⟩
+  | false =>
+    exact ⟨h.known, h.nodup, fun _ => h.unlogged hl, fun _ => h.unlogged hl⟩
+
+theorem inLoopRollback_good (i : ISt) (h : Good i) : Good (inLoopRollback i) :=
+  ⟨unlock_known _ _ h.known, h.nodup, fun _ => unlock_ownFree _ _ h.known, fun _ => unlock_ownFree _ _ h.known⟩
+
+theorem lockStep_good (i : ISt) (h : Good i) (he : i.ended = false) (n : Nat) :
+    Good { i with cache := (lockItems i.cache i.trk Window.none).2.1, trk := (lockItems i.cache i.trk Window.none).2.2,
+                  next := n, logged := true } := by
+  obtain ⟨k, e⟩ := lockItems_good i.cache i.trk h.known h.nodup
+  exact ⟨k, by rw [e]; exact h.nodup, fun hh => by simp at hh, fun hh => by simp [he] at hh⟩
+
+/-- a loop decision or tail whose `lock` window is empty; no failed refetch -/
+def Benign : REv → Bool
+  | .ev _ w => w.ops.isEmpty && !w.readErr
+  | .refetchFail _ _ => false
+  | _ => true
+
+theorem window_none (w : Window) (h : (w.ops.isEmpty && !w.readErr) = true) : w = Window.none := by
+  cases w with
+  | mk ops re =>
+    simp only [Bool.and_eq_true, List.isEmpty_iff, Bool.not_eq_true'] at h
+    simp [Window.none, h.1, h.2]
+
+theorem stepR_good (c : Cfg) (s : RSt) (e : REv) (hb : Benign e = true) (h : Good s.i) : Good (stepR keepAll c s e).i := by
+  cases e with
+  | env op =>
+    exact ⟨known_env _ _ _ h.known, h.nodup, fun hl => ownFree_env _ _ (h.unlogged hl), fun he => ownFree_env _ _ (h.ended he)⟩
+  | refetchFail dt r => simp [Benign] at hb
+  | ev e w =>
+    have hw := window_none w hb
+    subst hw
+    simp only [stepR]
+    split
+    · exact h
+    · rename_i hne
+      simp only [Bool.or_eq_true, not_or, Bool.not_eq_true] at hne
+      split
+      · -- refetch + lockTrackedItems
+        unfold refetchStep
+        simp only [reReg_keepAll]
+        have g := lockStep_good s.i h hne.1 (reReg keepAll s.i.next s.i.trk).2
+        split
+        · exact g
+        · exact rollbackEnd_good _ g
+      · unfold plainStep
+        simp only []
+        split <;> split <;> first
+          | exact rollbackEnd_good _ (inLoopRollback_good _ h)
+          | exact inLoopRollback_good _ h
+          | exact rollbackEnd_good _ h
+          | exact h
+  | tail r =>
+    simp only [stepR]
+    split
+    · exact h
+    · have hc : Good { s.i with trk := (checkItems s.i.cache s.i.trk).1 } :=
+        ⟨checkItems_known _ _ h.known, by rw [checkItems_items]; exact h.nodup, h.unlogged, h.ended⟩
+      cases r with
+      | failEarly => exact rollbackEnd_good _ h
+      | failLate => exact rollbackEnd_good _ hc
+      | ok =>
+        unfold tailStep
+        simp only []
+        split
+        · exact ⟨unlock_known _ _ hc.known, hc.nodup, fun _ => unlock_ownFree _ _ hc.known, fun _ => unlock_ownFree _ _ hc.known⟩
+        · exact rollbackEnd_good _ hc
+
+theorem runR_good (c : Cfg) (es : List REv) (s : RSt) (hb : es.all Benign = true) (h : Good s.i) :
+    Good (runR keepAll c s es).i := by
+  induction es generalizing s with
+  | nil => exact h
+  | cons e es ih =>
+    simp only [List.all_cons, Bool.and_eq_true] at hb
+    exact ih _ hb.2 (stepR_good c s e hb.1 h)
+
+theorem initR_good (c : Cfg) (start : Nat) (hk : Bool) (trk : List Trk) (cache : RCache) (n : Nat)
+    (h0 : OwnFree cache) (hn : (trk.map (·.item)).Nodup) : Good (initR c start hk trk cache n Window.none).i := by
+  have g0 : Good { cache := cache, trk := trk, next := n, logged := true, ended := false } :=
+    ⟨fun j l a hj ho => by rw [h0 j l a hj] at ho; simp at ho, hn, fun hh => by simp at hh, fun hh => by simp at hh⟩
+  have g := lockStep_good _ g0 rfl n
+  unfold initR
+  simp only []
+  split
+  · exact g
+  · exact rollbackEnd_good _ g
+
+/-- **No lock left behind.** For every tracker (any iteration order, any mix of read / updated / removed / added
+items), every initial state of the other transactions' records, every script of loop decisions (refused node
+locks, refetches, conflicts, retry cap, timeouts, errors at any point, success, failures after the loop) and
+every interleaved action of other transactions: once Commit has returned, no lock record under one of the
+transaction's own LockIDs is in the cache. -/
+theorem no_lock_left_behind (c : Cfg) (start : Nat) (hk : Bool) (trk : List Trk) (cache : RCache) (n : Nat)
+    (h0 : OwnFree cache) (hn : (trk.map (·.item)).Nodup) (es : List REv) (hb : es.all Benign = true) :
+    (runR keepAll c (initR c start hk trk cache n Window.none) es).i.ended = true →
+      OwnFree (runR keepAll c (initR c start hk trk cache n Window.none) es).i.cache :=
+  (runR_good c es _ hb (initR_good c start hk trk cache n h0 hn)).ended
+
+/-- At every moment of the commit: a record under one of the transaction's LockIDs is one its tracker knows
+under exactly that LockID and believes it owns (so the next unlock deletes it). -/
+theorem records_always_owned (c : Cfg) (start : Nat) (hk : Bool) (trk : List Trk) (cache : RCache) (n : Nat)
+    (h0 : OwnFree cache) (hn : (trk.map (·.item)).Nodup) (es : List REv) (hb : es.all Benign = true) :
+    Known (runR keepAll c (initR c start hk trk cache n Window.none) es).i.cache
+          (runR keepAll c (initR c start hk trk cache n Window.none) es).i.trk :=
+  (runR_good c es _ hb (initR_good c start hk trk cache n h0 hn)).known
+
+/-! ### witnesses -/
+
+/-- a transaction that READ item 0 and UPDATED item 1 -/
+def trkRW : List Trk := [⟨0, ⟨true, 0⟩, .get, false⟩, ⟨1, ⟨true, 1⟩, .update, false⟩]
+def noRecs : RCache := fun _ => none
+
+/-- node lock refused once, then granted; refetch and merge; body fine -/
+def refusedOnce : List REv :=
+  [.ev (.lock 0 .refused) .none, .ev (.lock 0 .granted) .none, .ev (.isLocked 0 true) .none,
+   .ev (.refetch 0 true) .none, .ev (.dualLock 0 true) .none, .ev (.body 0 .ok) .none]
+
+/-- Non-vacuity: on this script the records ARE there while the commit runs, the commit ends, and nothing is left. -/
+theorem no_lock_left_behind_nonvacuous :
+    let s1 := runR keepAll (cfgOf 900000 none) (initR (cfgOf 900000 none) 0 true trkRW noRecs 2 .none) refusedOnce
+    let s2 := stepR keepAll (cfgOf 900000 none) s1 (.tail .ok)
+    s1.i.cache 0 = some (⟨true, 0⟩, .get) ∧ s1.i.cache 1 = some (⟨true, 1⟩, .update) ∧ s1.i.ended = false ∧
+    s2.i.ended = true ∧ s2.i.cache 0 = none ∧ s2.i.cache 1 = none := by decide +kernel
+
+/-- `keepLockIdentity` not called for items that were only read (the get branch of the replay). -/
+def keepNotGet : Act → Bool := fun a => a != .get
+
+/-- Dropping the identity for READ items breaks the property: after one refused node lock the read item's record
+(old LockID) is neither conflicting (get/get) nor owned, the commit SUCCEEDS and the record stays. -/
+theorem identity_dropped_for_reads_leaks :
+    let s := runR keepNotGet (cfgOf 900000 none) (initR (cfgOf 900000 none) 0 true trkRW noRecs 2 .none)
+              (refusedOnce ++ [.tail .ok])
+    s.l.pc = .done .success ∧ s.i.ended = true ∧ s.i.cache 0 = some (⟨true, 0⟩, .get) ∧ s.i.cache 1 = none := by
+  decide +kernel
+
+/-- the same when the transaction gives up after the refetch instead (error in the body) -/
+theorem identity_dropped_for_reads_leaks_on_giveup :
+    let s := runR keepNotGet (cfgOf 900000 none) (initR (cfgOf 900000 none) 0 true trkRW noRecs 2 .none)
+              (refusedOnce.take 5 ++ [.ev (.fail 0) .none])
+    s.l.pc = .done .error ∧ s.i.ended = true ∧ s.i.cache 0 = some (⟨true, 0⟩, .get) := by
+  decide +kernel
+
+/-- The full-strength statement: as `no_lock_left_behind`, without the `Benign` hypothesis and for any window of
+the first `lock` call. FALSE on the tree under test, two ways: -/
+def Statement_C15_items : Prop :=
+  ∀ (c : Cfg) (start : Nat) (hk : Bool) (trk : List Trk) (cache : RCache) (n : Nat) (w : Window) (es : List REv),
+    OwnFree cache → (trk.map (·.item)).Nodup →
+    (runR keepAll c (initR c start hk trk cache n w) es).i.ended = true →
+    OwnFree (runR keepAll c (initR c start hk trk cache n w) es).i.cache
+
+def trkWW : List Trk := [⟨0, ⟨true, 0⟩, .update, false⟩, ⟨1, ⟨true, 1⟩, .update, false⟩]
+
+/-- finding C15-F4: another writer's record lands on item 0 between this transaction's write and its verifying
+read: `lock` returns "conflict" at item 0 and never marks item 1 (written, intact) as owned; the rollback
+skips it. -/
+theorem C15_items_counterexample_lock_early_return : ¬ Statement_C15_items := by
+  intro h
+  have := h (cfgOf 900000 none) 0 true trkWW noRecs 2 ⟨[.put 0 9 .update], false⟩ []
+    (by intro j l a hj; simp [noRecs] at hj) (by decide) (by decide +kernel) 1 ⟨true, 1⟩ .update (by decide +kernel)
+  simp at this
+
+/-- finding C15-F5: the refetch fails after it has re-registered item 1 only (e.g. a replayed add hits a key
+another transaction has added meanwhile): the tracker has forgotten item 0, whose record stays. -/
+theorem C15_items_counterexample_failed_refetch : ¬ Statement_C15_items := by
+  intro h
+  have := h (cfgOf 900000 none) 0 true trkRW noRecs 2 .none
+    [.ev (.lock 0 .refused) .none, .ev (.lock 0 .granted) .none, .ev (.isLocked 0 true) .none, .refetchFail 0 [1]]
+    (by intro j l a hj; simp [noRecs] at hj) (by decide) (by decide +kernel) 0 ⟨true, 0⟩ .get (by decide +kernel)
+  simp at this
+
 end Sop.C15
